@@ -13,8 +13,10 @@
      dump                         n_cached_pages and, for every page number with any trace, n_subpages:subno_min:subno_max
                                   and the cached subno/function/FNV-1a-32 of the rowspec, in hash-chain order
      chsw                         vbi_chsw_reset (new empty network)
-     search <pgno> <subno> <casefold> <regexp> <ucs2-hex|-> <mode>   vbi_search_new; <mode> is for the model only
-     next <dir>                   vbi_search_next + the whole search context
+     search <pgno> <subno> <casefold> <regexp> <ucs2-hex|-> <mode>   vbi_search_new; <mode> is a historical token, ignored
+     next <dir>                   vbi_search_next + the whole search context.  After a search with <regexp> != 0 the
+                                  answer is `ok unsupported` (ure.c is not modelled: same answer as the model driver)
+                                  unless the harness was started with --regex (real code + oracle runs of the check)
      endsearch
    rowspec: `-` (rows 1..23 all blank = U+0020 normal size) or `<row>:<41 cells>;...`, cell = 4 hex unicode + 1 hex size */
 #include "hutil.h"
@@ -25,6 +27,8 @@
 
 static vbi_decoder *dec;
 static vbi_search  *srch;
+static int          srch_regex;     /* the current search was created with regexp != 0 */
+static int          regex_mode;     /* --regex: execute vbi_search_next for such searches too */
 static double       clock_s;
 static vbi_page    *fpg;
 
@@ -153,9 +157,10 @@ static void print_ctx(void)
 	       srch->stop_pgno[0], srch->stop_subno[0], srch->stop_pgno[1], srch->stop_subno[1]);
 }
 
-int main(void)
+int main(int argc, char **argv)
 {
 	int r;
+	regex_mode = (argc > 1 && 0 == strcmp(argv[1], "--regex"));
 	static char buf[1 << 16];
 	signal(SIGALRM, on_alarm);
 	fpg = calloc(1, sizeof *fpg);
@@ -198,6 +203,7 @@ int main(void)
 				pat[len / 2] = 0;
 				if (srch) vbi_search_delete(srch);
 				srch = vbi_search_new(dec, (vbi_pgno) a, (vbi_subno) b, pat, c != 0, d != 0, NULL);
+				srch_regex = (d != 0);
 				free(pat); free(p);
 			}
 			if (!srch) printf("ok null\n");
@@ -205,6 +211,7 @@ int main(void)
 				    srch->stop_pgno[1], srch->stop_subno[1]);
 		} else if (H_IS(0, "next") && h_ntok == 2 && NUM(1, a)) {
 			if (!srch) printf("rej nosearch\n");
+			else if (srch_regex && !regex_mode) printf("ok unsupported\n");
 			else {
 				/* mirror of what the first/changed-direction call will pass to _vbi_cache_foreach_page:
 				   a start page number outside 0x100..0x8FF trips assert() in cache_network_page_stat
